@@ -63,6 +63,13 @@ class Scenario:
                                'args_norm': [gen.normalise(ct, a) for ct, a in zip(types, args)],
                                'ret': ov, 'ret_norm': [gen.normalise(ct, v) for ct, v in zip(otypes, ov)]})
 
+        # calls that the implementation cannot tell apart (same method, equal arguments) get the same answer
+        for i, c in enumerate(self.calls):
+            for e in self.calls[:i]:
+                if e['method'] == c['method'] and plain_eq(e['args_norm'], c['args_norm']):
+                    c['ret'], c['ret_norm'] = e['ret'], e['ret_norm']
+                    break
+
     def interface(self):
         return I.DBusInterface(self.iface_name, *[I.Method(m, arguments=s['in'], returns=s['out'])
                                                   for m, s in sorted(self.methods.items())], noRegister=True)
